@@ -730,6 +730,17 @@ impl<'a> Th<'a> {
                 };
                 Some(v.cell.with(|p| unsafe { std::ptr::read(p) }) as i64)
             }
+            PanicInCellMut { c } => {
+                let t = self.t;
+                o.cells[c as usize].0.with_mut(|_| panic!("injected failure t{} (inside UnsafeCell::with_mut)", t));
+                None
+            }
+            PanicInAtomMut { a } => {
+                let t = self.t;
+                let p = unsafe { &mut *o.atomics[a as usize].0.get() };
+                p.with_mut(|_| panic!("injected failure t{} (inside Atomic::with_mut)", t));
+                None
+            }
             PanicIf { v } => {
                 if v < 0 || self.last == v as i64 {
                     panic!("injected failure t{}", self.t);
